@@ -156,4 +156,39 @@ PROPS["C05"] = dict(
     thorough=dict(checks=5000, shards=16, timeout=3000, shrinktime=30),
 )
 
+PROPS["C03"] = dict(
+    pkg="c03",
+    level="exploration",
+    technique="property-based testing (rapid) over signing histories: independent reader of the output (PE layout, certificate table, CMS) + reference firmware-style verification + round-trip through Parse",
+    level_text=("Signing histories (1..4 signatures by 2048/3072/4096-bit keys, serialise/re-parse between steps chosen at random) over generated well-formed images "
+                "(all C01 shapes without a table, every length mod 8) and over the repository images incl. the sbsign-signed ones. After every signature an independent reader checks: "
+                "every original byte kept except the directory entry, zero padding to 8, directory entry = (8-aligned table offset, size) spanning exactly to end of file, table splits into "
+                "revision 0x0200 / type 0x0002 entries with dwLength = 8 + blob and zero padding, earlier entries untouched, embedded SpcIndirectData digest == specification digest of the output == digest before signing; "
+                "the live object and Parse(Bytes()) report the same digest, list all entries, verify against every signer so far (and the third-party signer of pre-signed inputs) "
+                "and not against a certificate that never signed; the reference verifier (C04 predicate + digest binding) accepts every signer."),
+    level_note="Trusts ref/pehash, ref/acode, ref/cms (each validated against sbsign-produced fixtures per run). Certificate variety is C05's subject; fixed identities (one per pool key) are used here.",
+    rule=("case = (image, 1..4 signing steps with identity and re-parse flag, outsider identity). Non-trivial = history with >=2 signatures, or input length mod 8 != 0, or pre-signed input, or a re-parse between signatures; "
+          "distinct by SHA-256 of (image, steps)."),
+    assumptions=["ref/pehash, ref/acode, ref/cms"],
+    quick=dict(checks=500, shards=4, timeout=900, shrinktime=15),
+    thorough=dict(checks=4000, shards=16, timeout=3000, shrinktime=30),
+)
+
+PROPS["C02"] = dict(
+    pkg="c02",
+    level="exploration",
+    technique="property-based testing (rapid): adversarial derivation of signed images (byte flips, transplants, DER edits inside the blob, forged re-signing), differential against a reference firmware-style verifier",
+    level_text=("Validly signed images (library-signed generated images with 1..2 signatures, sbsign-signed fixtures) are turned into adversarial (image, certificate) pairs: one covered byte changed "
+                "(region boundaries and uniform), any byte changed, the whole table transplanted onto another image, the embedded SpcIndirectData digest rewritten to the tampered image's digest with and without "
+                "also rewriting messageDigest, all 30 structural mutation classes of C04 applied to a table entry, and a consistent forgery re-signed with another key under the victim's issuer+serial; "
+                "verified against the signer, an unrelated certificate, a same-issuer+serial certificate on another key and the forger's twin. Oracle: Verify == (true, nil) implies the reference predicate "
+                "(some entry is accepted by the C04 reference for that certificate AND carries the specification digest of exactly these bytes)."),
+    level_note="Trusts ref/acode, ref/cms, ref/pehash (validated per run on the sbsign fixtures incl. negative variants). Completeness on honest pairs is C03; it is only counted here (class honest_pair_rejected_by_library must stay 0 for the run to be meaningful).",
+    rule=("case = (derived image, verifying certificate). Non-trivial = derived (not the unmodified) pair in which some table entry's SignerInfo names the verifying certificate, so the verdict depends on digest binding and RSA check; "
+          "distinct by SHA-256 of (image, certificate)."),
+    assumptions=["ref/acode.VerifyImage states the C02 predicate"],
+    quick=dict(checks=3000, shards=4, timeout=900, shrinktime=15),
+    thorough=dict(checks=30000, shards=16, timeout=3000, shrinktime=30),
+)
+
 NOT_APPLICABLE = _NA()
